@@ -1,8 +1,51 @@
-(* C18: property theorems.  Statements only; every proof is `exact` of a lemma in Proofs/. *)
+(* C18 -- Actions are well-formed value objects
+   Property theorems only: each proof is one application of a lemma proved in Proofs/, followed by Print Assumptions. *)
 From Coq Require Import ZArith List Bool.
 From CS Require Repr.
+From CS Require Import Actions NAdvance Multistage Exec Sched RunFacts Projections BasicInv MultistageRun TLBridge.
 Import ListNotations.
 Open Scope Z_scope.
+
+(* NoneCheckpointSchedule: Forward, finalize(N), EndForward, then StopIteration for ever *)
+Theorem C18_none : forall (N : Z) (k : nat), 1 <= N -> N <= maxsize ->
+  exists o0 m ls, run_case PNone (BasicInv.pn N) ([Next; Fin N] ++ repeat Next k) = Ok (o0, m, ls) /\ no_err err_C18 m /\ no_raise ls.
+Proof. intros N k H1 H2. destruct (none_run N H1 H2 k) as (o0 & m & ls & E & Hm & Hl). exists o0, m, ls. auto using mon_ok_no_err. Qed.
+Print Assumptions C18_none.
+
+(* SingleMemoryStorageSchedule: any number of adjoint calculations *)
+Theorem C18_single_memory : forall (N : Z) (k : nat), 1 <= N -> N <= maxsize ->
+  exists o0 m ls, run_case PMem (BasicInv.pm N) ([Next; Fin N] ++ repeat Next k) = Ok (o0, m, ls) /\ no_err err_C18 m /\ no_raise ls.
+Proof. intros N k H1 H2. destruct (single_memory_run N H1 H2 k) as (o0 & m & ls & E & Hm & Hl). exists o0, m, ls. auto using mon_ok_no_err. Qed.
+Print Assumptions C18_single_memory.
+
+(* SingleDiskStorageSchedule, move_data = False (any number of adjoint calculations) and True (one) *)
+Theorem C18_single_disk : forall (mv : bool) (N : Z) (k : nat), 1 <= N ->
+  exists o0 m ls, run_case (PDisk mv) (BasicInv.pd N) (repeat Next (Z.to_nat N) ++ [Fin N] ++ repeat Next k) = Ok (o0, m, ls)
+                  /\ no_err err_C18 m /\ no_raise ls.
+Proof. intros mv N k H1. destruct (single_disk_run mv N H1 k) as (o0 & m & ls & E & Hm & Hl). exists o0, m, ls. auto using mon_ok_no_err. Qed.
+Print Assumptions C18_single_disk.
+
+(* MultistageCheckpointSchedule: every N, every RAM/DISK split, both trajectories; budgets = the declared unit counts *)
+Theorem C18_multistage : forall (N ram disk : Z) (tj : traj) (c : Multistage.cfg) (k : nat),
+  1 <= N -> 0 <= ram -> 0 <= disk -> (2 <= N -> 1 <= ram + disk) -> Multistage.construct N ram disk tj = Ok c ->
+  exists o0 m ls, run_case (PMulti N ram disk tj) (ms_params N ram disk) (repeat Next k) = Ok (o0, m, ls) /\ no_err err_C18 m /\ no_raise ls.
+Proof.
+  intros N ram disk tj c k H1 H2 H3 H4 H5. destruct (multistage_run N ram disk tj c k H1 H2 H3 H4 H5) as (o0 & m & ls & E & Hm & Hl & _).
+  exists o0, m, ls. auto using mon_ok_no_err.
+Qed.
+Print Assumptions C18_multistage.
+
+(* TwoLevelCheckpointSchedule: every N (also not a multiple of the period), period, binomial_snapshots, both binomial storages,
+   both trajectories, any number of adjoint calculations; Q = ceil(N / period) forward requests, then finalize(N) *)
+Theorem C18_twolevel : forall (N P bs : Z) (bst : storage) (tj : traj) (k : nat),
+  1 <= N -> 1 <= P -> 0 <= bs -> bst = RAM \/ bst = DISK ->
+  exists o0 m ls, run_case (PTwo P bs bst tj) (ptl N P bs bst) (repeat Next (Z.to_nat (TLBridge.Q N P)) ++ [Fin N] ++ repeat Next (S k)) = Ok (o0, m, ls)
+                  /\ no_err err_C18 m /\ no_raise ls.
+Proof.
+  intros N P bs bst tj k H1 H2 H3 H4. destruct (twolevel_run N P bs bst tj H1 H2 H3 H4 k) as (o0 & m & ls & E & Hm & Hl).
+  exists o0, m, ls. auto using mon_ok_no_err.
+Qed.
+Print Assumptions C18_twolevel.
 
 (* decimal printing of integers parses back *)
 Module M_C18_z_roundtrip.
